@@ -34,8 +34,8 @@ fn parallel_marker_continuation_arm_contract() {
     // a captured continuation keeps alive: its saved operand stack, the captures of the innermost frame and of
     // EVERY saved frame - with or without attachments - and every attached handler
     assert!(c.pushed == bits(0, 7), "a value reachable only through a captured continuation is not traversed");
-    // ... and, since the guard on the continuation is released before the values are visited, they are kept alive
-    assert!(c.saved == bits(0, 7), "a value of a captured continuation is traversed without being kept alive");
+    // ... the handler is a temporary clone: the work list holds a pointer to it, so it has to be kept alive
+    assert!(c.saved & bits(5, 5) != 0, "a handler of a captured continuation is traversed through a pointer to a temporary that is not kept alive");
     let open = MutContainer(RefCell::new(ContinuationMark::Open(OpenContinuationMark)));
     let mut c = ctx();
     c.visit_continuation(&open);
@@ -68,7 +68,7 @@ fn parallel_marker_container_arms_contract() {
     assert!(c.pushed == bits(0, 1));
     let mut c = ctx();
     c.visit_boxed_value(&MutContainer(RefCell::new(h(0))));
-    assert!(c.pushed == bits(0, 0) && c.saved == bits(0, 0), "the content of a box is traversed and kept alive while it is");
+    assert!(c.pushed == bits(0, 0), "the content of a box is traversed");
     let mut c = ctx();
     c.visit_closure(&ByteCodeLambda { id: 60, captures: vec![h(0), leaf(), h(1)], contract: Some(h(2)) });
     assert!(c.pushed == bits(0, 2), "captured values and the attached contract are traversed");
